@@ -215,6 +215,32 @@ static void zero_draws ()
     }
 }
 
+// solidSphereRand: "inside the unit ball" at the resolution of the rejection test itself.  Millions of points are drawn;
+// only those within 2^-20 of the sphere are logged (a selection, not a judgement); the specification evaluates the squared
+// length exactly as the library's float arithmetic does (this file is compiled with -ffp-contract=off) and requires <= 1.
+template <class R, class V> static void ballscan (const char* cls, const char* t, uint64_t seed, long n)
+{
+    R g ((unsigned long) seed);
+    long logged = 0;
+    for (long i = 0; i < n; ++i)
+    {
+        V v = solidSphereRand<V> (g);
+        double l2 = 0; for (unsigned k = 0; k < V::dimensions (); ++k) l2 += (double) v[k] * (double) v[k];
+        if (l2 < 1.0 - 9.5367431640625e-07) continue;
+        if (++logged > 400) break;
+        fprintf (o, "{\"e\":\"ballscan\",\"cls\":\"%s\",\"t\":\"%s\",\"seed\":%lu,\"idx\":%ld,\"out\":", cls, t, (unsigned long) seed, i); vec (v); fprintf (o, "}\n");
+    }
+}
+static void ballscans (uint64_t seed, long n)
+{
+    for (uint64_t s = 0; s < 6; ++s)
+    {
+        uint64_t sd = seed * 8 + s;
+        ballscan<Rand48, Vec3<float>> ("Rand48", "f", sd, n); ballscan<Rand48, Vec4<float>> ("Rand48", "f", sd, n); ballscan<Rand48, Vec2<float>> ("Rand48", "f", sd, n);
+        ballscan<Rand32, Vec3<float>> ("Rand32", "f", sd, n); ballscan<Rand48, Vec3<double>> ("Rand48", "d", sd, n / 4);
+    }
+}
+
 static int replay (const char* path)
 {
     std::ifstream in (path);
@@ -252,6 +278,7 @@ int main (int argc, char** argv)
     if (mode == "imath") { family<ImathFns> (seed, eps); }
     else if (mode == "glibc") { family<LibcFns> (seed, eps); }
     else if (mode == "objects") { objects (seed, eps); if (seed % 16 == 1) zero_draws (); }
+    else if (mode == "ballscan") { ballscans (seed, (long) eps * 1000); }
     else return 2;
     return 0;
 }
